@@ -740,7 +740,7 @@ ShortStream.corpus = [
     _short_min([]),
     _short_case(2, ["--path", "shop"]),            # parallelized: the in-progress test is displayed and must be counted (seeded/C20-6)
     _short_case(2, ["--enabled"]),
-    _short_case(1, ["--path", "shop"]),            # sequential: D32, from_suites raises on the in-progress last result
+    _short_case(1, ["--path", "shop"]),            # sequential: D34, from_suites raises on the in-progress last result
     _short_case(1, ["--passed"]),                  # sequential, the filter drops the in-progress test: fine
     _short_case(1, []),
 ]
